@@ -20,7 +20,8 @@ TEXT = ("Static lock-discipline analysis over the MIR of every function and clos
         "state. R5: every loop and every recursion has a structural termination argument (finite iteration, parent walk with "
         "index = parent.index + 1 established at every tree insertion, work list over the block DAG, structural recursion "
         "possibly across helpers, wrapper delegation). Does not decide other data-dependent panics (unwrap/expect on "
-        "storage errors, poisoned locks, ill-formed user input).")
+        "storage errors, poisoned locks, ill-formed user input)."
+        " R1 treats two parameters of one reference type as possibly the same replica unless std::ptr::eq excluded it before the first acquisition.")
 TECHNIQUE = 'static analysis over rustc MIR: held-guard dataflow with receiver-sensitive lock identity, transitive acquisition summaries over the call graph (closures, dyn Adapter fan-out), lock-order cycles, parallel-region read/write conflicts, guard escape; back-edge and call-graph-cycle classification with a ranking function (termination); contradiction rule on the winner-less tree state'
 TRUSTED = ["rustc nightly MIR construction and callee resolution",
            "std::sync semantics: Mutex is not re-entrant, RwLock may be writer-preferring",
